@@ -218,6 +218,7 @@ func specInScope(stack []scope, n int, s scope) bool {
 //@   ensures[C01,C11] group-keeps-its-child: old(p.peek().tokenType) == lexer.OPENING_ROUND_BRACKET && err == nil ==> isType(result0, "parser.Group") && calls(evaluateExpression) == 1 && asType(result0, "parser.Group").child == res(evaluateExpression, 0, 0)
 //
 //@ func (*Parser).evaluateVarEvaluation
+//@   callsite findVariable requires[C07,C09] a-name-is-looked-up-under-this-files-prefix-and-the-current-scope: arg2 == p.prefix && arg3 == ctx.global()
 //@   ensures[C06] typed: err == nil ==> specTyped(result0) && isType(result0, "parser.VariableEvaluation")
 //
 //@ func (*Parser).evaluateFunctionCall
@@ -303,6 +304,7 @@ func specInScope(stack []scope, n int, s scope) bool {
 //@ func (*Parser).evaluateImports
 //@   loop @"for#1" exit[C12] blank-lines-before-the-imports-are-all-skipped: p.peek().tokenType != lexer.NEWLINE
 //@   callsite parse requires[C13] never-a-file-that-is-still-being-parsed: arg1 != p.path && !inList(p.importers, arg1) && arg2
+//@   callsite parse requires[C13] the-imported-parser-knows-the-whole-chain-of-importers: len(arg0.importers) == len(p.importers) + 1 && arg0.importers[len(p.importers)] == p.path && forall(k, 0, len(p.importers), arg0.importers[k] == p.importers[k])
 //@   flag nocommon: true
 //@   flag notypeinv: true
 //@   requires[C13] context-has-its-maps: ctx.variables != nil && ctx.functions != nil && ctx.imports != nil
@@ -312,7 +314,7 @@ func specInScope(stack []scope, n int, s scope) bool {
 // file and of nothing else (not of its path): the same file has the same prefix wherever it lies.
 //@ func (*Parser).parse
 //@   flag nocommon: true
-//@   ensures[C09,C14] prefix-hashes-exactly-the-file-content: imported && err == nil ==> calls(Write) == 1 && calls(os_ReadFile) == 1 && arg(Write, 0, 0) == res(os_ReadFile, 0, 0) && calls(Sum) == 1 && seq(Write, 0) < seq(Sum, 0)
+//@   ensures[C09,C14] prefix-hashes-exactly-the-file-content: imported && err == nil ==> calls(crypto_sha256_New) == 1 && seq(crypto_sha256_New, 0) < seq(Write, 0) && calls(Write) == 1 && calls(os_ReadFile) == 1 && arg(Write, 0, 0) == res(os_ReadFile, 0, 0) && calls(Sum) == 1 && seq(Write, 0) < seq(Sum, 0)
 //@ func (*Parser).Parse
 //@   flag nocommon: true
 //
@@ -334,6 +336,24 @@ func specInScope(stack []scope, n int, s scope) bool {
 //@ func isPublic
 //@   ensures[C07,C09] upper-case-first-letter-only: len(name) > 0 && name[0] < 128 ==> result == (name[0] >= 65 && name[0] <= 90)
 
+//@ func (*Parser).evaluateStatement
+//@   callsite findVariable requires[C07,C09] a-name-is-looked-up-under-this-files-prefix-and-the-current-scope: arg2 == p.prefix && arg3 == ctx.global()
+//
+// The type of a call as a value: the function's only result type; a call of a function with
+// several results has the type MULTIPLE (usable only where all results are taken), one of a
+// function without results no type at all.
+// write(path, data[, append]): the parser checks the path and the append flag (the data type is
+// checked by the transpiler, see its evaluateWrite); the arguments are typed expressions.
+//@ func (*Parser).evaluateWrite
+//@   ensures[C06,C17] path-is-a-string-and-the-append-flag-a-boolean: err == nil ==> isType(result0, "parser.Write") && specTyped(asType(result0, "parser.Write").path) && asType(result0, "parser.Write").path.ValueType().IsString() && specTyped(asType(result0, "parser.Write").data) && asType(result0, "parser.Write").append.ValueType().IsBool()
+//
+//@ func (*Parser).evaluatePanic
+//@   ensures[C06,C13] exactly-one-typed-argument: err == nil ==> isType(result0, "parser.Panic") && specTyped(asType(result0, "parser.Panic").expression)
+
+//@ func functionValueType
+//@   flag inline: true
+//@   ensures[C06] one-result-is-its-type-several-are-no-single-value: (len(returnTypes) == 1 ==> result == returnTypes[0]) && (len(returnTypes) > 1 ==> result.dataType == DATA_TYPE_MULTIPLE && !result.isSlice) && (len(returnTypes) == 0 ==> result.dataType == DATA_TYPE_UNKNOWN && !result.isSlice)
+
 //@ func New
 //@   flag modular: true
 //@   ensures[C14] empty-call-graph: result.index == 0 && len(result.tokens) == 0 && result.currFunc == ""
@@ -343,6 +363,8 @@ func specInScope(stack []scope, n int, s scope) bool {
 //@   flag modular: true
 //
 //@ func (*Parser).evaluateVarDefinition
+//@   ensures[C07,C10] every-declared-name-is-checked-against-the-visible-ones: err == nil ==> calls(evaluateVarNames) == 1 && calls(checkNewVariableNameToken) == len(res(evaluateVarNames, 0, 0)) && forall(k, 0, len(res(evaluateVarNames, 0, 0)), arg(checkNewVariableNameToken, k, 1) == res(evaluateVarNames, 0, 0)[k])
+//@   loop @"range nameTokens#1" invariant[C07,C10] names-checked-so-far: calls(checkNewVariableNameToken) == rangeindex + 1 && forall(k, 0, rangeindex + 1, arg(checkNewVariableNameToken, k, 1) == nameTokens[k])
 //@   loop @"range values" invariant[C06] types-of-the-values-in-order: len(valuesTypes) == rangeindex + 1 && forall(k, 0, len(valuesTypes), valuesTypes[k] == values[k].ValueType())
 //@   loop @"range variables#1" invariant[C06] variables-so-far-take-a-value-of-their-type: len(variables) == len(valuesTypes) && forall(k, 0, rangeindex + 1, variables[k].valueType.Equals(valuesTypes[k]))
 //@   ensures[C06] each-value-has-the-type-of-its-variable: err == nil && isType(result0, "parser.VariableDefinition") && calls(evaluateValues) == 1 ==> len(asType(result0, "parser.VariableDefinition").variables) == len(asType(result0, "parser.VariableDefinition").values) && forall(k, 0, len(asType(result0, "parser.VariableDefinition").values), asType(result0, "parser.VariableDefinition").variables[k].valueType.Equals(asType(result0, "parser.VariableDefinition").values[k].ValueType()))
@@ -350,16 +372,19 @@ func specInScope(stack []scope, n int, s scope) bool {
 //@   ensures[C12] declaration-may-end-the-file: calls(evaluateValues) <= 1
 //
 //@ func (*Parser).checkNewVariableNameToken
+//@   callsite findVariable requires[C07,C09] a-name-is-looked-up-under-this-files-prefix-and-the-current-scope: arg2 == p.prefix && arg3 == ctx.global()
 //@   ensures[C10,FINDING] compiler-owned-names-rejected: result == nil ==> !specReservedName(token.value)
 //@   ensures[C07] visible-name-rejected: (result != nil) == specVarVisible(ctx, token.value, p.prefix)
 //
 //@ func (*Parser).evaluateVarAssignment
+//@   callsite findVariable requires[C07,C09] a-name-is-looked-up-under-this-files-prefix-and-the-current-scope: arg2 == p.prefix && arg3 == ctx.global()
 //@   loop @"range evaluatedVals.values" invariant[C06] types-of-the-values: len(valuesTypes) == rangeindex + 1 && forall(k, 0, rangeindex + 1, valuesTypes[k] == res(evaluateValues, 0, 0).values[k].ValueType())
 //@   ensures[C06] value-k-has-the-type-of-variable-k: err == nil && isType(result0, "parser.VariableAssignment") ==> len(asType(result0, "parser.VariableAssignment").values) == len(asType(result0, "parser.VariableAssignment").variables) && forall(k, 0, len(asType(result0, "parser.VariableAssignment").variables), specTyped(asType(result0, "parser.VariableAssignment").values[k]) && asType(result0, "parser.VariableAssignment").values[k].ValueType() == asType(result0, "parser.VariableAssignment").variables[k].valueType)
 //@   loop @"range nameTokens" invariant[C02,C09] targets-are-the-defined-variables: len(variables) == rangeindex + 1 && forall(k, 0, rangeindex + 1, has(ctx.variables, specVarKey(ctx, res(evaluateVarNames, 0, 0)[k].value, p.prefix)) && variables[k] == get(ctx.variables, specVarKey(ctx, res(evaluateVarNames, 0, 0)[k].value, p.prefix)))
 //@   loop @"range nameTokens" invariant[C06] variable-k-has-the-type-of-value-k: forall(k, 0, rangeindex + 1, variables[k].valueType == valuesTypes[k]) && len(valuesTypes) == len(res(evaluateVarNames, 0, 0))
 //
 //@ func (*Parser).evaluateIncrementDecrement
+//@   callsite findVariable requires[C07,C09] a-name-is-looked-up-under-this-files-prefix-and-the-current-scope: arg2 == p.prefix && arg3 == ctx.global()
 //@   ensures[C06] the-counted-variable-is-an-integer: err == nil ==> specTyped(asType(result0, "parser.VariableAssignment").values[0]) && asType(result0, "parser.VariableAssignment").values[0].ValueType().IsInt()
 //@   ensures[C01,C02] plus-or-minus-one-on-the-defined-variable: err == nil ==> isType(result0, "parser.VariableAssignment") && len(asType(result0, "parser.VariableAssignment").variables) == 1 && len(asType(result0, "parser.VariableAssignment").values) == 1 && isType(asType(result0, "parser.VariableAssignment").values[0], "parser.BinaryOperation") && asType(asType(result0, "parser.VariableAssignment").values[0], "parser.BinaryOperation").right == specIntLit(1)
 //@   ensures[C01] increment-adds-decrement-subtracts: err == nil ==> (old(p.peekAt(1)).tokenType == lexer.INCREMENT_OPERATOR ==> asType(asType(result0, "parser.VariableAssignment").values[0], "parser.BinaryOperation").operator == "+") && (old(p.peekAt(1)).tokenType == lexer.DECREMENT_OPERATOR ==> asType(asType(result0, "parser.VariableAssignment").values[0], "parser.BinaryOperation").operator == "-")
@@ -374,11 +399,13 @@ func specInScope(stack []scope, n int, s scope) bool {
 //@   ensures[C06] every-condition-boolean: err == nil ==> isType(result0, "parser.If") && specTyped(asType(result0, "parser.If").ifBranch.condition) && asType(result0, "parser.If").ifBranch.condition.ValueType().IsBool() && forall(k, 0, len(asType(result0, "parser.If").elifBranches), specTyped(asType(result0, "parser.If").elifBranches[k].condition) && asType(result0, "parser.If").elifBranches[k].condition.ValueType().IsBool())
 //
 //@ func (*Parser).evaluateFor
+//@   ensures[C07,C10] both-range-variables-are-checked-against-the-visible-names: err == nil && old(p.peekAt(1)).tokenType == lexer.IDENTIFIER && old(p.peekAt(2)).tokenType == lexer.COMMA ==> calls(checkNewVariableNameToken) >= 2 && arg(checkNewVariableNameToken, 0, 1) == old(p.peekAt(1)) && arg(checkNewVariableNameToken, 1, 1) == old(p.peekAt(3))
 //@   callsite addVariables requires[C07,C09] loop-variables-are-never-globals: !arg2
 //@   ensures[C01] plain-assignment-accepted-as-init: err != nil && calls(evaluateStatement) == 1 && res(evaluateStatement, 0, 1) == nil && calls(evaluateExpression) == 0 && calls(evaluateBlock) == 0 && res(evaluateStatement, 0, 0).StatementType() == STATEMENT_TYPE_VAR_ASSIGNMENT ==> hasPrefix(errmsg(err), "expected \";\"")
 //@   ensures[C06] condition-boolean: err == nil ==> isType(result0, "parser.For") && specTyped(asType(result0, "parser.For").condition) && asType(result0, "parser.For").condition.ValueType().IsBool()
 //
 //@ func (*Parser).evaluateSliceAssignment
+//@   callsite findVariable requires[C07,C09] a-name-is-looked-up-under-this-files-prefix-and-the-current-scope: arg2 == p.prefix && arg3 == ctx.global()
 //@   ensures[C06] index-int-value-of-element-type: err == nil ==> isType(result0, "parser.SliceAssignment") && specTyped(asType(result0, "parser.SliceAssignment").index) && asType(result0, "parser.SliceAssignment").index.ValueType().IsInt() && specTyped(asType(result0, "parser.SliceAssignment").value) && asType(result0, "parser.SliceAssignment").Variable.valueType.isSlice && asType(result0, "parser.SliceAssignment").value.ValueType().Equals(NewValueType(asType(result0, "parser.SliceAssignment").Variable.valueType.dataType, false))
 //
 //@ func (*Parser).evaluateValues
@@ -390,6 +417,7 @@ func specInScope(stack []scope, n int, s scope) bool {
 //@   ensures[C13] at-least-one-name: err == nil ==> len(result0) >= 1
 //
 //@ func (*Parser).evaluateCompoundAssignment
+//@   callsite findVariable requires[C07,C09] a-name-is-looked-up-under-this-files-prefix-and-the-current-scope: arg2 == p.prefix && arg3 == ctx.global()
 //@   ensures[C06] exactly-one-value-on-the-right: err == nil ==> len(res(evaluateValues, 0, 0).values) == 1 && !res(evaluateValues, 0, 0).isMultiReturnCall()
 //@   ensures[C02] the-target-is-the-defined-variable: err == nil ==> len(asType(result0, "parser.VariableAssignment").variables) == 1 && has(ctx.variables, specVarKey(ctx, res(evaluateVarNames, 0, 0)[0].value, p.prefix)) && asType(result0, "parser.VariableAssignment").variables[0] == get(ctx.variables, specVarKey(ctx, res(evaluateVarNames, 0, 0)[0].value, p.prefix))
 //@   loop @"range values" invariant[C06] types-of-the-values: len(valuesTypes) == rangeindex + 1 && forall(k, 0, rangeindex + 1, valuesTypes[k] == res(evaluateValues, 0, 0).values[k].ValueType())
